@@ -77,6 +77,7 @@ type PathCtx struct {
 	userData    map[string]value
 	inSched     bool
 	randN, randRun int
+	pins        map[*Term]uint64
 }
 
 type symKey struct {
@@ -177,10 +178,10 @@ func (px *PathCtx) Branch(fr *frame, c *Term) bool {
 		px.pos++
 		px.decs = append(px.decs, d)
 		if d.V != 0 {
-			px.pc = append(px.pc, c)
+			px.addConj(c)
 			return true
 		}
-		px.pc = append(px.pc, ts.Not(c))
+		px.addConj(ts.Not(c))
 		return false
 	}
 	b := px.evalBool(c)
@@ -198,9 +199,9 @@ func (px *PathCtx) Branch(fr *frame, c *Term) bool {
 	}
 	px.decs = append(px.decs, Decision{'b', b2i(b)})
 	if b {
-		px.pc = append(px.pc, c)
+		px.addConj(c)
 	} else {
-		px.pc = append(px.pc, ts.Not(c))
+		px.addConj(ts.Not(c))
 	}
 	return b
 }
@@ -228,7 +229,7 @@ func (px *PathCtx) Pick(t *Term, what string) int64 {
 		}
 		px.pos++
 		px.decs = append(px.decs, d)
-		px.pc = append(px.pc, ts.Cmp(opEq, t, ts.Const(t.w, uint64(d.V))))
+		px.addConj(ts.Cmp(opEq, t, ts.Const(t.w, uint64(d.V))))
 		return d.V
 	}
 	v0 := px.eval(t)
@@ -252,7 +253,7 @@ func (px *PathCtx) Pick(t *Term, what string) int64 {
 		}
 	}
 	px.decs = append(px.decs, Decision{'p', int64(v0)})
-	px.pc = append(px.pc, ts.Cmp(opEq, t, ts.Const(t.w, v0)))
+	px.addConj(ts.Cmp(opEq, t, ts.Const(t.w, v0)))
 	return int64(v0)
 }
 
@@ -300,13 +301,13 @@ func (px *PathCtx) AddPC(c *Term, why string) {
 		return
 	}
 	if px.inReplay() || px.evalBool(c) {
-		px.pc = append(px.pc, c)
+		px.addConj(c)
 		return
 	}
 	res, m := px.check(c, true)
 	switch res {
 	case resSat:
-		px.pc = append(px.pc, c)
+		px.addConj(c)
 		px.setModel(m)
 	case resUnsat:
 		panic(pathEnd{kind: "infeasible", msg: why})
@@ -674,4 +675,45 @@ func (px *PathCtx) solverDecisions() int {
 		}
 	}
 	return n
+}
+
+// addConj appends a conjunct to the path condition and records variables it
+// pins to a constant (x == k), so that later consumers (checksums) can see
+// through to the concrete value.
+func (px *PathCtx) addConj(c *Term) {
+	px.pc = append(px.pc, c)
+	px.notePins(c)
+}
+
+func (px *PathCtx) notePins(c *Term) {
+	switch c.op {
+	case opEq:
+		a, b := c.x[0], c.x[1]
+		if b.op == opConst && a.op != opConst {
+			if px.pins == nil {
+				px.pins = map[*Term]uint64{}
+			}
+			px.pins[a] = b.c
+		} else if a.op == opConst && b.op != opConst {
+			if px.pins == nil {
+				px.pins = map[*Term]uint64{}
+			}
+			px.pins[b] = a.c
+		}
+	case opBAnd:
+		px.notePins(c.x[0])
+		px.notePins(c.x[1])
+	}
+}
+
+// pinned returns the constant the path condition forces v to, if known syntactically.
+func (px *PathCtx) pinned(v value) value {
+	s, ok := v.(sym)
+	if !ok {
+		return v
+	}
+	if k, ok := px.pins[s.t]; ok {
+		return fromBits(s.k, k)
+	}
+	return v
 }
